@@ -174,9 +174,15 @@ def _wrapping_map(F, B, t):
     if not (M.Body.callee_decl(t) or "").endswith("Result::<T, E>::map") or len(t["args"]) != 2:
         return False
     for o in M.trace(B, t["args"][1], ()):
-        if o.kind != "aggregate" or not o.rv.get("closure"):
+        if o.kind == "const" and (o.const.get("inst_path") or o.const.get("fn_path")):
+            # a function of the wrapper handed over by name (`.map(Self::new)`): the same test on its body, its parameter being _1
+            cb = F.lib.body(o.const.get("inst_path") or "") or F.lib.body(o.const.get("fn_path") or "")
+            value_local = 1
+        elif o.kind == "aggregate" and o.rv.get("closure"):
+            cb = F.lib.body(o.rv["closure"])
+            value_local = 2
+        else:
             return False
-        cb = F.lib.body(o.rv["closure"])
         if cb is None or not cb.get("mir"):
             return False
         CB = M.Body(cb)
@@ -184,7 +190,7 @@ def _wrapping_map(F, B, t):
         if len(cs) != 1 or not (M.Body.callee(cs[0][1]) or "").endswith("Arc::<T>::new"):
             return False
         arg = M.trace(CB, cs[0][1]["args"][0], IDENT)
-        if not (arg and all(x.kind == "arg" and x.local == 2 for x in arg)):
+        if not (arg and all(x.kind == "arg" and x.local == value_local for x in arg)):
             return False
         for i in sorted(CB.reach):
             for st in CB.blocks[i]["stmts"]:
